@@ -357,3 +357,90 @@ func c10Fp(n ast.ParentNode, braces bool) string {
 	}
 	return s
 }
+
+
+// ---- base names: identifier -> UPPER_UNDERSCORE (official BaseUtils.convertToUpperUnderscore) ----
+
+func c10Letter(c byte) bool { return c >= 'a' && c <= 'z' || c >= 'A' && c <= 'Z' }
+func c10Upper(c byte) bool  { return c >= 'A' && c <= 'Z' }
+func c10Lower(c byte) bool  { return c >= 'a' && c <= 'z' }
+func c10Digit(c byte) bool  { return c >= '0' && c <= '9' }
+
+// refUpperUnderscore: the conversion as a sequence of left-to-right, non-overlapping rewriting
+// passes: strip leading/trailing underscores; collapse runs of underscores; insert an underscore
+// between a letter and an upper-case letter that starts a lower-case word, between a letter and a
+// digit, between a digit and a letter; upper-case everything.
+func refUpperUnderscore(id string) string {
+	lo, hi := 0, len(id)
+	for lo < hi && id[lo] == '_' {
+		lo++
+	}
+	for hi > lo && id[hi-1] == '_' {
+		hi--
+	}
+	s := id[lo:hi]
+	var t []byte
+	for i := 0; i < len(s); i++ {
+		if s[i] == '_' && i+1 < len(s) && s[i+1] == '_' {
+			continue
+		}
+		t = append(t, s[i])
+	}
+	pass := func(in []byte, match func(b []byte, i int) int) []byte {
+		var out []byte
+		for i := 0; i < len(in); {
+			if n := match(in, i); n > 0 {
+				out = append(out, in[i], '_')
+				out = append(out, in[i+1:i+n]...)
+				i += n
+			} else {
+				out = append(out, in[i])
+				i++
+			}
+		}
+		return out
+	}
+	t = pass(t, func(b []byte, i int) int {
+		if i+2 < len(b) && c10Letter(b[i]) && c10Upper(b[i+1]) && c10Lower(b[i+2]) {
+			return 3
+		}
+		return 0
+	})
+	t = pass(t, func(b []byte, i int) int {
+		if i+1 < len(b) && c10Letter(b[i]) && c10Digit(b[i+1]) {
+			return 2
+		}
+		return 0
+	})
+	t = pass(t, func(b []byte, i int) int {
+		if i+1 < len(b) && c10Digit(b[i]) && c10Letter(b[i+1]) {
+			return 2
+		}
+		return 0
+	})
+	for i := range t {
+		if c10Lower(t[i]) {
+			t[i] -= 'a' - 'A'
+		}
+	}
+	return string(t)
+}
+
+var c10IdentAlphabet = []byte("abAB12_")
+
+// H_baseName: every identifier of n characters over {a,b,A,B,1,2,_} (the conversion runs
+// regexps, so the text is concrete per path): toUpperUnderscore equals the reference, and the
+// base name of {$id}, {$x.id} is that.
+func H_baseName(n int) {
+	b := make([]byte, n)
+	for i := range b {
+		b[i] = c10IdentAlphabet[verifChoose(len(c10IdentAlphabet))]
+	}
+	id := string(b)
+	verifObserve("id", id)
+	want := refUpperUnderscore(id)
+	verifAssert(toUpperUnderscore(id) == want, "base placeholder name differs from the official conversion for "+id)
+	verifAssert(genBasePlaceholderName(&ast.PrintNode{Arg: &ast.DataRefNode{Key: id}}, "XXX") == want, "base name of a variable")
+	verifAssert(genBasePlaceholderName(&ast.PrintNode{Arg: &ast.DataRefNode{Key: "x", Access: []ast.Node{&ast.DataRefKeyNode{Key: id}}}}, "XXX") == want, "base name of a field")
+	verifAssert(genBasePlaceholderName(&ast.PrintNode{Arg: &ast.DataRefNode{Key: id, Access: []ast.Node{&ast.DataRefIndexNode{Index: 0}}}}, "XXX") == "XXX", "base name of an indexed reference")
+}
